@@ -140,7 +140,7 @@ def module_state(prop, tier, seed):
                 dn = ast.unparse(dec)
                 if any(x in dn for x in ('cache', 'lru_cache', 'memo')):
                     hits.append('%s:%s is memoised by @%s' % (m, fname, dn))
-    obs.append(ob('C11:package:no-module-level-state-is-written-by-any-function', ['C11', 'C10', 'C17'], not hits,
+    obs.append(ob('C11:package:no-module-level-state-is-written-by-any-function', ['C11', 'C10', 'C17', 'C18', 'C14'], not hits,
                   {'occurrences': sorted(set(hits))}))
     return obs, {}
 
@@ -350,7 +350,7 @@ def lexer_facts(prop, tier, seed):
 
 extras.register(['C08', 'C04'], decimal_context)
 extras.register(['C05'], regex_timeout_constant)
-extras.register(['C11', 'C10', 'C17'], module_state)
+extras.register(['C11', 'C10', 'C17', 'C18', 'C14'], module_state)
 extras.register(['C02', 'C16'], confinement)
 extras.register(['C20', 'C15', 'C16', 'C06', 'C18'], lexer_facts)
 
@@ -372,3 +372,161 @@ def lean_lemmas(prop, tier, seed):
 
 
 extras.register(['C01', 'C03', 'C10'], lean_lemmas)
+
+
+# ---- the published lexical grammar -----------------------------------------------------------------------
+PUBLISHED_TOKENS = {
+    # written from the language description, not copied from lexer.py: numbers are digits with an optional
+    # fraction; names are identifiers or %...% ; strings are single- or double-quoted, optionally raw, on one line,
+    # with backslash escapes; comments run from # to the end of the line; separators are LF, CRLF and ;
+    't_NUMBER': r'[0-9]+(\.[0-9]+)?',
+    't_NAME': r'(%[^%\n]*%)|([A-Za-z_][A-Za-z0-9_]*)',
+    't_STRING': r'''(r?"([^\\\n"]|\\[^\n])*")|(r?'([^\\\n']|\\[^\n])*')''',
+    't_COMMENT': r'\#[^\n]*',
+    't_NEWLINE': r'\r\n|\n|;',
+}
+PROBE_ALPHABET = ['a', 'r', '1', '0', '_', '.', '%', '"', "'", '\\', '#', ' ', '\n', ';', '=']
+
+
+def _edge_chars(regex, last=False):
+    """the characters a match of the regex can START with (or END with), over ASCII - by the sre parse tree"""
+    try:
+        import re._parser as sre_parse
+    except ImportError:      # pragma: no cover
+        import sre_parse
+    tree = sre_parse.parse(regex, re.VERBOSE)
+    universe = [chr(i) for i in range(128)]
+
+    def set_chars(items):
+        out = set()
+        for c in universe:
+            neg = False
+            hit = False
+            for op, av in items:
+                name = str(op)
+                if name == 'NEGATE':
+                    neg = True
+                elif name == 'LITERAL':
+                    hit = hit or av == ord(c)
+                elif name == 'RANGE':
+                    hit = hit or av[0] <= ord(c) <= av[1]
+                elif name == 'CATEGORY':
+                    n2 = str(av)
+                    if 'NOT_DIGIT' in n2:
+                        hit = hit or not c.isdigit()
+                    elif 'DIGIT' in n2:
+                        hit = hit or c.isdigit()
+                    elif 'NOT_SPACE' in n2:
+                        hit = hit or not c.isspace()
+                    elif 'SPACE' in n2:
+                        hit = hit or c.isspace()
+                    elif 'NOT_WORD' in n2:
+                        hit = hit or not (c.isalnum() or c == '_')
+                    elif 'WORD' in n2:
+                        hit = hit or c.isalnum() or c == '_'
+                    else:
+                        hit = True
+                else:
+                    hit = True
+            if hit != neg:
+                out.add(c)
+        return out
+
+    def edge(items):
+        """(set of edge chars, nullable)"""
+        items = list(items)
+        if last:
+            items = items[::-1]
+        chars = set()
+        for op, av in items:
+            name = str(op)
+            if name == 'LITERAL':
+                s, nl = {chr(av)} if av < 128 else {'?'}, False
+            elif name == 'NOT_LITERAL':
+                s, nl = set(universe) - {chr(av)}, False
+            elif name == 'ANY':
+                s, nl = set(universe) - {'\n'}, False
+            elif name == 'IN':
+                s, nl = set_chars(av), False
+            elif name == 'CATEGORY':
+                s, nl = set_chars([(op, av)]), False
+            elif name == 'BRANCH':
+                s, nl = set(), False
+                for b in av[1]:
+                    s2, n2 = edge(b)
+                    s |= s2
+                    nl = nl or n2
+            elif name == 'SUBPATTERN':
+                s, nl = edge(av[3])
+            elif name in ('MAX_REPEAT', 'MIN_REPEAT', 'POSSESSIVE_REPEAT'):
+                s, nl = edge(av[2])
+                nl = nl or av[0] == 0
+            elif name in ('AT', 'ASSERT', 'ASSERT_NOT'):
+                s, nl = set(), True
+            else:
+                s, nl = set(universe), True
+            chars |= s
+            if not nl:
+                return chars, False
+        return chars, True
+    return edge(tree)
+
+
+def lexical_grammar(prop, tier, seed):
+    """the token regexes of the real lexer denote the published lexical grammar"""
+    import itertools
+    src = _src()
+    regs = token_regexes(src)
+    obs = []
+    nr = regs.get('t_NUMBER')
+    if nr:
+        try:
+            first, n1 = _edge_chars(nr, last=False)
+            lastc, n2 = _edge_chars(nr, last=True)
+            ok = not n1 and not n2 and first <= set('0123456789') and lastc <= set('0123456789')
+            info = {'first': ''.join(sorted(first)), 'last': ''.join(sorted(lastc)), 'regex': nr}
+        except Exception as e:
+            ok, info = False, {'error': str(e)}
+        # so that 3.f() is NUMBER DOT NAME and x[.5] is not a number: r.f(a) and f(r, a) stay the same call (C15)
+        obs.append(ob('C15:t_NUMBER:a-number-starts-and-ends-with-a-digit', ['C15', 'C06', 'C08'], ok, info))
+    strings = ['']
+    for k in range(1, 5):
+        strings += [''.join(t) for t in itertools.product(PROBE_ALPHABET, repeat=k)]
+    for name, pub in sorted(PUBLISHED_TOKENS.items()):
+        real = regs.get(name)
+        if real is None:
+            obs.append(ob('C15:%s:token-rule-exists' % name, ['C15', 'C06'], False))
+            continue
+        try:
+            r1 = re.compile(real, re.VERBOSE)
+            r2 = re.compile(pub)
+            diff = None
+            for s in strings:
+                # the lexer takes the match of the rule at the current position (a prefix of the rest of the text)
+                m1, m2 = r1.match(s), r2.match(s)
+                a = m1.end() if m1 else None
+                b = m2.end() if m2 else None
+                if a != b:
+                    diff = {'text': s, 'lexer_token_length': a, 'published_token_length': b}
+                    break
+        except re.error as e:
+            diff = {'error': str(e)}
+        obs.append(ob('C15:%s:token-at-every-position-is-the-published-one[bounded: all texts up to length 4 over a 15-character probe alphabet]' % name,
+                      ['C15', 'C06', 'C18', 'C20'], diff is None, {'regex': real, 'published': pub, 'first_difference': diff,
+                                                                   'strings_compared': len(strings), 'bounded': True}))
+    # exception classes: the driver and Python's own machinery treat some classes specially
+    exc = src.exception_classes()
+    chain = []
+    c = 'ParserError'
+    while c in exc:
+        c = exc[c].split('.')[-1]
+        chain.append(c)
+    obs.append(ob('C16:exceptions:ParserError-derives-directly-from-Exception', ['C16', 'C01'], chain == ['Exception'],
+                  {'bases': chain, 'why': 'PLY\'s LR driver catches SyntaxError raised by an action and enters error recovery; generators turn StopIteration into RuntimeError; handlers for LookupError in the evaluator would swallow it'}))
+    lim = 'OpsExecutionLimitExceededError'
+    obs.append(ob('C16:exceptions:ops-limit-error-derives-from-ParserError', ['C16', 'C01'], exc.get(lim, '').split('.')[-1] == 'ParserError',
+                  {'bases': exc.get(lim)}))
+    return obs, {}
+
+
+extras.register(['C15', 'C06', 'C18', 'C20', 'C16', 'C01', 'C08'], lexical_grammar)
